@@ -172,6 +172,29 @@ def periodOfRateQ (fl : Rat → Rat) (rate : Rat) : Int := roundHalfEven (fl (10
 /-- the pinned snapshot (finding F7): `int(1e9 / rate)` -/
 def periodOfRateUnfixedQ (fl : Rat → Rat) (rate : Rat) : Int := (fl (1000000000 / rate)).floor
 
+/-! ### Sample rate of a time series (`TimeSeries._timesteps`, `sample_rate`) -/
+
+/-- `np.diff` -/
+def diffs : List Int → List Int
+  | a :: b :: r => (b - a) :: diffs (b :: r)
+  | _ => []
+
+/-- `TimeSeries._timesteps` has exactly one element (`np.unique(np.diff(timestamps))`): that step -/
+def tsStep (ts : List Int) : Option Int :=
+  match diffs ts with
+  | [] => none
+  | d :: ds => if ds.all (· == d) then some d else none
+
+/-- `TimeSeries.sample_rate`: `1e9 / step` when the step is unique, else `None` (a zero step is outside the model) -/
+def tsSampleRate (fl : Rat → Rat) (ts : List Int) : Option Rat :=
+  match tsStep ts with
+  | some d => if d = 0 then none else some (fl (1000000000 / (d : Rat)))
+  | none => none
+
+def grid (t0 d : Int) : Nat → List Int
+  | 0 => []
+  | n + 1 => t0 :: grid (t0 + d) d n
+
 /-! ### Datasets: the `to_dataset` writers, `channel_class`, the `from_dataset` readers (channel.py) -/
 
 /-- the `Kind` attribute as stored: absent (format v1), a `str`, or `bytes` (decoded before comparing) -/
@@ -526,6 +549,11 @@ def handle : List String → Option String
     match writeCroppedMeta sl a b with
     | none => some "N"
     | some (x, y) => some (toString x ++ " " ++ toString y)
+  | ["c05.tsrate", ts] => do
+    let ts ← intList? ts
+    match tsStep ts with
+    | some 0 => none   -- division by a zero step: outside the model
+    | _ => some (showOpt showRat (tsSampleRate flDouble ts))
   | _ => none
 
 end Verif.C05
